@@ -143,6 +143,12 @@ func (w *originWalker) walk(v ssa.Value, idx int, e *env, depth int) {
 		}
 		switch a := t.X.(type) {
 		case *ssa.Alloc:
+			// flow-sensitive when the reaching store is evident: nearest store in the same block
+			// or up the chain of unique predecessors
+			if st := nearestStore(t, a); st != nil {
+				w.walk(st.Val, idx, e, depth+1)
+				return
+			}
 			sts := StoresTo(a)
 			if len(sts) == 0 {
 				w.leaf(v, idx, "other")
@@ -377,4 +383,41 @@ func (w *originWalker) funcValues(v ssa.Value, e *env, depth int) []*ssa.Functio
 	}
 	rec(v, e, 0)
 	return out
+}
+
+// nearestStore finds the store to cell that certainly reaches load ld: the last store
+// before it in its block, or in the chain of unique predecessors (no merge in between).
+func nearestStore(ld *ssa.UnOp, cell *ssa.Alloc) *ssa.Store {
+	b := ld.Block()
+	if b == nil {
+		return nil
+	}
+	idx := InstrIndex(ld)
+	for hops := 0; hops < 12 && b != nil; hops++ {
+		for j := idx - 1; j >= 0; j-- {
+			switch t := b.Instrs[j].(type) {
+			case *ssa.Store:
+				if t.Addr == ssa.Value(cell) {
+					return t
+				}
+			case *ssa.Call:
+				// a call that received a closure capturing the cell may have written it
+				for _, a := range t.Call.Args {
+					if mc, ok := a.(*ssa.MakeClosure); ok {
+						for _, bnd := range mc.Bindings {
+							if bnd == ssa.Value(cell) {
+								return nil
+							}
+						}
+					}
+				}
+			}
+		}
+		if len(b.Preds) != 1 {
+			return nil
+		}
+		b = b.Preds[0]
+		idx = len(b.Instrs)
+	}
+	return nil
 }
